@@ -313,3 +313,7 @@ TEXT["C16"].update(
 TEXT["C03"].update(
     engine="verus+kani+bounded",
     level=TEXT["C03"]["level"] + " 'TTLs only ever reduced': the cache lifetime is the smallest TTL of all three sections (Kani dns_ttl, bounded shapes), so the age subtracted never exceeds a TTL; the same on the real cache over insertion histories (engine B dns_cache).")
+
+TEXT["C07"].update(
+    level=TEXT["C07"]["level"] + " TcpNameserver::read_reply (Verus): conservation of the upstream TCP stream -- at the function's only await point and at its exits, the octets collected in the connection state followed by those still on the socket are exactly what was unread on entry minus the one whole frame handed out, whatever the segmentation; this is the state discipline that makes dropping the future (select! in run) harmless. The cancellation itself is not modelled.",
+    note=TEXT["C07"]["note"] + " Defect D07b (a reply split across TCP segments was lost when another query arrived in between: read_exact is not cancel safe) was found by reading the code after a seeding agent pointed at it, demonstrated with a scripted upstream and fixed (fb2392c).")
